@@ -13,6 +13,10 @@
 (*           with.  It lives as long as the server; a request reads it     *)
 (*           (determineResponseContentType, mergeHeaders, writeHeaders)    *)
 (*           and must never write it.                                      *)
+(*   ws      ONE websocket connection with several operations in flight:   *)
+(*           the latest client message (the run loop's variable) and, per  *)
+(*           operation id, how many frames it has produced; every frame    *)
+(*           carries the id of the operation that produced it              *)
 (*   heap, bfree   response buffers.  The design has none that outlives a  *)
 (*           request (generated Exec marshals into a buffer of its own);   *)
 (*           they exist for the deviation BufPool.                         *)
@@ -56,19 +60,23 @@ CONSTANTS
   Requests,     \* set of abstract requests [tr, q, opn, vars, ext]
   ResetFields,  \* the fields the deferred func of POST.Do clears
   ResetEarly,   \* TRUE = (deviation) the reset runs before the parameters are used
-  CacheKey,     \* "full" = queryCache keyed on the whole text; "prefix" = (deviation) on a prefix
+  CacheKey,     \* "full" = queryCache keyed on the whole text; (deviations) "prefix" = on a prefix,
+                \* "fold" = on a lossy function of the text that maps document TWINS to one key
   PoolMax,      \* bound on the bag (sync.Pool may drop objects at any time)
   Slots,        \* number of requests in flight at once
   Configs,      \* names of the configurations a server may be constructed with (CfgMap)
   MergeInPlace, \* TRUE = (deviation) mergeHeaders completes the configured map in place and returns it
   BufPool,      \* TRUE = (deviation) Exec marshals into a pooled buffer and hands it back while the response aliases it
   TrackNeg,     \* TRUE = the media type negotiated last is kept (history variable) and exported with the state
-  Once          \* TRUE = every slot serves exactly one request (schedule export, MC_HttpStateHeld)
+  Once,         \* TRUE = every slot serves exactly one request (schedule export, MC_HttpStateHeld)
+  WsScript,     \* websocket part: operation id -> number of data frames it produces ([] = part switched off)
+  WsPings,      \* number of ping messages the client may send on the connection
+  WsSharedMsg   \* TRUE = (deviation) the operations read the id from the run loop's ONE message variable
 
-VARIABLES pool, qcache, apq, fl, act, cfg, cfg0, neg, heap, bfree
+VARIABLES pool, qcache, apq, fl, act, cfg, cfg0, neg, heap, bfree, ws
 
-vars == <<pool, qcache, apq, fl, act, cfg, cfg0, neg, heap, bfree>>
-view == <<pool, qcache, apq, fl, cfg, cfg0, neg, heap, bfree>>
+vars == <<pool, qcache, apq, fl, act, cfg, cfg0, neg, heap, bfree, ws>>
+view == <<pool, qcache, apq, fl, cfg, cfg0, neg, heap, bfree, ws>>
 
 -----------------------------------------------------------------------------
 (* Values *)
@@ -87,8 +95,27 @@ MapVal(name) ==
     [] name = "H:Q2" -> {<<"persistedQuery", "Q2">>}
     [] OTHER -> Nil
 
-Valid(q) == q \in {"Q1", "Q2"}          \* "QX" fails validation and is never cached
-Key(q) == IF CacheKey = "full" THEN q ELSE "Q"   \* all texts share their first byte
+(* Document TWINS: texts that differ only in bytes that look insignificant and
+   are not - blanks inside a string argument (TA1 "a b" / TA2 "a  b"), a block
+   string whose line break is a blank in the twin (TB1 / TB2), a comment ended
+   by \n whose twin has a blank there and so comments out the closing brace
+   (TC1 valid / TC2 does not parse), a comment ended by \n / by \r whose twin
+   comments out the next field (TD1 / TD3 select two fields, TD2 one), a comma
+   inside a string (TF1 "a,b", twin of TA1) - and, as a control, texts that
+   really are equivalent (TG1 blanks / TG2 commas and line breaks).  Family(t)
+   is what a lossy key function (folding white space and commas) maps t to. *)
+TwinTexts == {"TA1", "TA2", "TB1", "TB2", "TC1", "TC2", "TD1", "TD2", "TD3", "TF1", "TG1", "TG2"}
+Family(t) == CASE t \in {"TA1", "TA2", "TF1"} -> "FA"
+               [] t \in {"TB1", "TB2"} -> "FB"
+               [] t \in {"TC1", "TC2"} -> "FC"
+               [] t \in {"TD1", "TD2", "TD3"} -> "FD"
+               [] t \in {"TG1", "TG2"} -> "FG"
+               [] OTHER -> t
+
+Valid(q) == q \in {"Q1", "Q2"} \cup (TwinTexts \ {"TC2"})   \* "QX" fails validation, "TC2" does not parse: never cached
+Key(q) == CASE CacheKey = "full" -> q
+            [] CacheKey = "fold" -> Family(q)
+            [] OTHER -> "Q"                      \* "prefix": all texts share their first byte
 
 Zero == [q |-> "", opn |-> "", vars |-> Nil, ext |-> Nil, hdr |-> <<>>, rt |-> "zero"]
 
@@ -157,6 +184,11 @@ CfgMap(name) ==
     [] name = "ct"  -> {<<"Content-Type", "cj">>, <<"X-Served-By", "c07">>}
     [] OTHER -> {}
 
+(* the query cache a server is constructed with is part of its configuration:
+   "none", "xsb", "ct" have the LRU cache, "map" graphql.MapCache, "nocache"
+   none (graphql.NoCache: Get never hits, Add does nothing) *)
+HasCache(name) == name # "nocache"
+
 HasCT(m) == \E p \in m : p[1] = "Content-Type"
 CTOf(m) == (CHOOSE p \in m : p[1] = "Content-Type")[2]
 
@@ -213,6 +245,7 @@ Init ==
   /\ neg = NoNeg
   /\ heap = <<>>
   /\ bfree = {}
+  /\ ws = WsInit
 
 (* the request arrives; GET.Do / POST.Do: determineResponseContentType,
    mergeHeaders, writeHeaders - the configuration is only read *)
@@ -229,7 +262,7 @@ Start(i, r) ==
         /\ cfg' = IF MergeInPlace /\ r.tr \in NegTr /\ m # {} THEN [cfg EXCEPT ![r.tr] = hs] ELSE cfg
         /\ neg' = IF TrackNeg /\ r.tr \in NegTr THEN [tr |-> r.tr, ct |-> ct] ELSE neg
   /\ act' = [n |-> "Start"]
-  /\ UNCHANGED <<pool, qcache, apq, cfg0, heap, bfree>>
+  /\ UNCHANGED <<pool, qcache, apq, cfg0, heap, bfree, ws>>
 
 (* pool.Get() + params.Headers = r.Header + params.ReadTime = ... *)
 Take(i) ==
@@ -243,7 +276,7 @@ Take(i) ==
                 /\ fl' = [fl EXCEPT ![i].pc = "decode", ![i].obj = stamp(pool[j]), ![i].pooled = TRUE]
                 /\ pool' = [k \in 1..(Len(pool) - 1) |-> IF k < j THEN pool[k] ELSE pool[k + 1]]
   /\ act' = [n |-> "Take"]
-  /\ UNCHANGED <<qcache, apq, cfg, cfg0, neg, heap, bfree>>
+  /\ UNCHANGED <<qcache, apq, cfg, cfg0, neg, heap, bfree, ws>>
 
 Decode(i) ==
   /\ fl[i].pc = "decode"
@@ -254,7 +287,7 @@ Decode(i) ==
         THEN fl' = [fl EXCEPT ![i].pc = "write", ![i].obj = o, ![i].resp = ErrResp("decodeErr")]
         ELSE fl' = [fl EXCEPT ![i].pc = "mutate", ![i].obj = o, ![i].seen = Params(o)]
   /\ act' = [n |-> "Decode"]
-  /\ UNCHANGED <<pool, qcache, apq, cfg, cfg0, neg, heap, bfree>>
+  /\ UNCHANGED <<pool, qcache, apq, cfg, cfg0, neg, heap, bfree, ws>>
 
 (* AutomaticPersistedQuery.MutateOperationParameters *)
 Mutate(i) ==
@@ -272,13 +305,13 @@ Mutate(i) ==
           [] OTHER ->
                fl' = [fl EXCEPT ![i].pc = "parse"] /\ apq' = apq \cup {h}
   /\ act' = [n |-> "Mutate"]
-  /\ UNCHANGED <<pool, qcache, cfg, cfg0, neg, heap, bfree>>
+  /\ UNCHANGED <<pool, qcache, cfg, cfg0, neg, heap, bfree, ws>>
 
 (* parseQuery: cache lookup *)
 Parse(i) ==
   /\ fl[i].pc = "parse"
   /\ LET o == fl[i].obj
-         cached == {e \in qcache : e[1] = Key(o.q)}
+         cached == IF HasCache(cfg0) THEN {e \in qcache : e[1] = Key(o.q)} ELSE {}
      IN IF o.q = "" THEN fl' = [fl EXCEPT ![i].pc = "write", ![i].resp = ErrResp("noop")]
         ELSE IF cached # {}
         THEN fl' = [fl EXCEPT ![i].pc = "execute", ![i].hit = TRUE,
@@ -286,15 +319,15 @@ Parse(i) ==
         ELSE fl' = [fl EXCEPT ![i].pc = IF Valid(o.q) THEN "addcache" ELSE "execute",
                               ![i].resp = ExecResp(o.q, Params(o))]
   /\ act' = [n |-> "Parse"]
-  /\ UNCHANGED <<pool, qcache, apq, cfg, cfg0, neg, heap, bfree>>
+  /\ UNCHANGED <<pool, qcache, apq, cfg, cfg0, neg, heap, bfree, ws>>
 
 AddCache(i) ==
   /\ fl[i].pc = "addcache"
   /\ LET d == fl[i].resp.doc
-     IN qcache' = {e \in qcache : e[1] # Key(d)} \cup {<<Key(d), d>>}
+     IN qcache' = IF HasCache(cfg0) THEN {e \in qcache : e[1] # Key(d)} \cup {<<Key(d), d>>} ELSE qcache
   /\ fl' = [fl EXCEPT ![i].pc = "execute"]
   /\ act' = [n |-> "AddCache"]
-  /\ UNCHANGED <<pool, apq, cfg, cfg0, neg, heap, bfree>>
+  /\ UNCHANGED <<pool, apq, cfg, cfg0, neg, heap, bfree, ws>>
 
 (* CreateOperationContext copies OperationName / Extensions / Headers,
    VariableValues reads Variables: the fields as they are NOW.  The response
@@ -314,7 +347,7 @@ Execute(i) ==
                /\ bfree' = bfree \cup {b}
                /\ fl' = [fl EXCEPT ![i].pc = "write", ![i].resp = body, ![i].buf = b]
   /\ act' = [n |-> "Execute", i |-> i]
-  /\ UNCHANGED <<pool, qcache, apq, cfg, cfg0, neg>>
+  /\ UNCHANGED <<pool, qcache, apq, cfg, cfg0, neg, ws>>
 
 (* writeJson: the transport serialises what the response points to NOW;
    the status line and the headers were decided by this request before *)
@@ -324,7 +357,7 @@ Write(i) ==
      IN fl' = [fl EXCEPT ![i].pc = "finish",
                          ![i].wire = Wire(body, Status(fl[i].r, fl[i].resp.out, fl[i].ct), fl[i].hs)]
   /\ act' = [n |-> "Write", i |-> i]
-  /\ UNCHANGED <<pool, qcache, apq, cfg, cfg0, neg, heap, bfree>>
+  /\ UNCHANGED <<pool, qcache, apq, cfg, cfg0, neg, heap, bfree, ws>>
 
 (* the deferred func of POST.Do; the request is over *)
 Finish(i) ==
@@ -337,9 +370,50 @@ Finish(i) ==
                    own |-> [q |-> Own(r).q, opn |-> Own(r).opn, vars |-> Own(r).vars, ext |-> Own(r).ext],
                    out |-> fl[i].resp.out, ct |-> fl[i].ct, st |-> fl[i].wire.st]
   /\ fl' = [fl EXCEPT ![i] = IF Once THEN [pc |-> "done"] ELSE Idle]
-  /\ UNCHANGED <<qcache, apq, cfg, cfg0, neg, heap, bfree>>
+  /\ UNCHANGED <<qcache, apq, cfg, cfg0, neg, heap, bfree, ws>>
 
-Next == \E i \in 1..Slots :
+-----------------------------------------------------------------------------
+(* Several operations in flight on ONE websocket connection                  *)
+(* (transport/websocket.go: wsConnection.run reads the client's messages;    *)
+(* subscribe starts a goroutine per operation that writes its frames).       *)
+(*   ws.last   id of the latest client message ("" = none yet / a ping): the  *)
+(*             run loop's message variable                                    *)
+(*   ws.op[id] "idle" / number of data frames produced so far / "done"        *)
+(*   ws.frame  the frame written last: the id it carries, the operation that  *)
+(*             produced it, its number                                        *)
+(* The harness' subscriptions produce their events, and close, when the test  *)
+(* releases them, so every step below is a step of the replay.                *)
+
+WsIds == DOMAIN WsScript
+NoFrame == [id |-> "", of |-> "", k |-> 0, t |-> "none"]
+WsInit == [last |-> "", pings |-> 0, op |-> [id \in WsIds |-> "idle"], frame |-> NoFrame]
+
+(* the id a frame of operation id carries: its own - the start message was
+   this operation's - or (deviation) whatever the run loop's variable holds *)
+WsLabel(id) == IF WsSharedMsg THEN ws.last ELSE id
+
+WsSubscribe(id) ==
+  /\ ws.op[id] = "idle"
+  /\ ws' = [ws EXCEPT !.last = id, !.op[id] = 0, !.frame = NoFrame]
+  /\ act' = [n |-> "WsSubscribe", id |-> id]
+WsPing ==
+  /\ ws.pings < WsPings
+  /\ ws' = [ws EXCEPT !.last = "", !.pings = @ + 1, !.frame = NoFrame]
+  /\ act' = [n |-> "WsPing", id |-> ""]
+WsEmit(id) ==
+  /\ ws.op[id] \in 0..(WsScript[id] - 1)
+  /\ ws' = [ws EXCEPT !.op[id] = @ + 1, !.frame = [id |-> WsLabel(id), of |-> id, k |-> ws.op[id] + 1, t |-> "next"]]
+  /\ act' = [n |-> "WsEmit", id |-> id]
+WsComplete(id) ==
+  /\ ws.op[id] = WsScript[id]
+  /\ ws' = [ws EXCEPT !.op[id] = "done", !.frame = [id |-> WsLabel(id), of |-> id, k |-> 0, t |-> "complete"]]
+  /\ act' = [n |-> "WsComplete", id |-> id]
+
+WsNext == /\ (WsPing \/ \E id \in WsIds : WsSubscribe(id) \/ WsEmit(id) \/ WsComplete(id))
+          /\ UNCHANGED <<pool, qcache, apq, fl, cfg, cfg0, neg, heap, bfree>>
+
+Next == \/ WsNext
+        \/ \E i \in 1..Slots :
           \/ \E r \in Requests : Start(i, r)
           \/ Take(i) \/ Decode(i) \/ Mutate(i) \/ Parse(i) \/ AddCache(i) \/ Execute(i) \/ Write(i) \/ Finish(i)
 
@@ -366,6 +440,10 @@ Isolation ==
 (* the bytes written are the bytes computed by the request's own execution *)
 WriteOwn ==
   \A i \in 1..Slots : fl[i].pc = "finish" => fl[i].wire.body = fl[i].resp
+
+(* WriteOwn for websocket frames: a frame carries the id of the operation
+   that produced it, whatever else arrived on the connection meanwhile *)
+WsFrameOwn == ws.frame.t # "none" => ws.frame.id = ws.frame.of
 
 (* no request writes the configuration the transports were constructed with *)
 ConfigImmutable == cfg = [t \in ConfTr |-> CfgMap(cfg0)]
@@ -414,4 +492,12 @@ EmitSched ==
     PrintT(ToJson([s |-> [i \in 1..Slots |-> PhaseOf(fl[i])],
                    a |-> [ev |-> act'.n, slot |-> act'.i],
                    t |-> [i \in 1..Slots |-> PhaseOf(fl'[i])]]))
+(* Schedule graph of the websocket part: state = (operation phases, pings     *)
+(* sent), one edge per client message / released frame.                       *)
+WsPhase == [op |-> ws.op, pings |-> ws.pings]
+EmitWs ==
+  act'.n \in {"WsSubscribe", "WsPing", "WsEmit", "WsComplete"} =>
+    PrintT(ToJson([s |-> [op |-> ws.op, pings |-> ws.pings],
+                   a |-> [ev |-> act'.n, id |-> act'.id],
+                   t |-> [op |-> ws'.op, pings |-> ws'.pings]]))
 =============================================================================
